@@ -143,24 +143,7 @@ func renamePtKey(in any, to, from string) error {
 		return err
 	}
 
-	v, ok := pt.Meta[from]
-	if !ok {
-		return fmt.Errorf("key(from) %s not found", from)
-	}
-
-	switch v.PtFlag { //nolint:exhaustive
-	case input.PtField:
-		if v, ok := pt.Fields[from]; ok {
-			pt.Fields[to] = v
-		}
-		delete(pt.Fields, from)
-	case input.PtTag:
-		if v, ok := pt.Tags[from]; ok {
-			pt.Tags[to] = v
-		}
-		delete(pt.Tags, from)
-	}
-	return nil
+	return pt.Rename(to, from)
 }
 
 func setMeasurement(in any, val string) error {
